@@ -350,6 +350,83 @@ def fresh_of_type(ty, sym, hint="r"):
 # executor
 
 
+
+STATEFUL_CALL = re.compile(r"Vec::<.*>::(set_len|clear|reserve|reserve_exact|drain|truncate|push|pop|insert|remove|append|extend\w*|shrink_to_fit|swap_remove|resize\w*)|core::mem::(swap|replace|take)::<")
+
+
+def loop_info(f):
+    """Natural loops of a MIR body: {header: (body blocks, locals to havoc | None)}.
+    `None` means the loop touches state the havoc abstraction does not cover (writes through a
+    `&mut`, Vec length changes, re-borrows of a Vec / TooDee): such loops are cut as before."""
+    if hasattr(f, "_loops"):
+        return f._loops
+    succ = {}
+    for b, body in f.blocks.items():
+        succ[b] = [t for t in dict.fromkeys(re.findall(r"bb\d+", body[-1])) if t in f.blocks] if body else []
+    back = []
+    state = {}
+    stack = [("bb0", iter(succ.get("bb0", [])))]
+    state["bb0"] = 1
+    while stack:
+        node, it = stack[-1]
+        nxt = next(it, None)
+        if nxt is None:
+            state[node] = 2
+            stack.pop()
+            continue
+        if state.get(nxt, 0) == 1:
+            back.append((node, nxt))
+        elif state.get(nxt, 0) == 0:
+            state[nxt] = 1
+            stack.append((nxt, iter(succ.get(nxt, []))))
+    pred = {}
+    for u, vs in succ.items():
+        for v in vs:
+            pred.setdefault(v, []).append(u)
+    loops = {}
+    for (u, h) in back:
+        body = loops.setdefault(h, [set([h]), set()])[0]
+        work = [u]
+        while work:
+            n = work.pop()
+            if n not in body:
+                body.add(n)
+                work.extend(pred.get(n, []))
+    out = {}
+    for h, (body, _x) in loops.items():
+        hav = set()
+        ok = True
+        for b in body:
+            stmts = f.blocks[b]
+            for s_ in stmts:
+                m = re.match(r"(.+?) = (.+)$", s_)
+                if not m:
+                    continue
+                dest, rv = m.group(1).strip(), m.group(2)
+                root = re.search(r"_\d+", dest)
+                if "*" in dest.split("=")[0]:
+                    # a write through a pointer / reference
+                    ty = f.types.get(root.group(0), "") if root else ""
+                    if ty.startswith("&") or ty == "":
+                        ok = False
+                elif root:
+                    hav.add(root.group(0))
+                mb = re.search(r"&mut (?:\(fake\) )?\(*\*?(_\d+)", rv)
+                if mb:
+                    k = mb.group(1)
+                    if "*" in rv.split("&mut", 1)[1].split(")")[0] or rv.strip().startswith("&mut (*"):
+                        ty = f.types.get(k, "")
+                        if "TooDee" in ty or "Vec<" in ty:
+                            ok = False
+                    else:
+                        hav.add(k)  # a local borrowed mutably inside the loop may be changed by the callee
+                if STATEFUL_CALL.search(rv):
+                    ok = False
+        out[h] = (body, sorted(hav) if ok else None)
+    f._loops = out
+    return out
+
+
 class Outcome:
     def __init__(self, kind, state, value=None, msg=""):
         self.kind = kind  # 'return' | 'panic' | 'unwind'
@@ -638,6 +715,14 @@ class Exec:
                 return
             visited = (tuple(visited) if isinstance(visited, tuple) else tuple()) + (bb,)
         else:
+            if getattr(self, "havoc_loops", False):
+                info = loop_info(f).get(bb)
+                if info is not None and info[1] is not None:
+                    if bb in visited:
+                        return  # back edge into an abstracted loop head: covered by the havoc'd state
+                    for l in info[1]:
+                        st.locals[l] = fresh_of_type(f.types.get(l, ""), st.sym, "lh")
+                    st.events.append(("abstracted", f"{f.name}:{bb}"))
             if bb in visited:
                 if getattr(self, "cut_loops", False):
                     results.append(Outcome("cut", st, msg=f"loop back edge to {bb}"))
